@@ -43,6 +43,7 @@ type Exec struct {
 	paths  []*PathResult
 	maxPaths int
 	inlineDepth int
+	okEval      map[string]int
 	usedTrusted map[string]bool
 	usedModels  map[string]bool
 	inlined     map[string]bool
